@@ -214,7 +214,7 @@ Section Refine.
       + (* DEnsure; DCall *)
         destruct ds1 as [|d2 ds2]; [discriminate|]. destruct d2; try discriminate.
         destruct (Nat.eqb_spec i (length done)) as [->|]; [|discriminate]. cbn [andb] in Hi.
-        destruct (Nat.eqb i0 (length done) && Nat.eqb i1 (length done)); [|discriminate].
+        destruct (Nat.eqb i0 (length done) && Nat.eqb i1 (length done) && field_is_ptr gs (length done) t); [|discriminate].
         inversion Hi; subst. exists [ECall (length done) g propagate]. split; [reflexivity|].
         cbn [run_estmts bind]. rewrite ecall_refines by exact Hv. cbn [render_kind apply_fill bind state_after].
         destruct (render_call senc g propagate v) as [[v' bs]|f]; reflexivity.
@@ -242,7 +242,8 @@ Section Refine.
       destruct (Nat.eqb_spec i (length done)) as [->|]; [|discriminate].
       destruct (Nat.eqb_spec i0 (length done)) as [->|]; [|discriminate]. cbn [andb] in Hi.
       destruct (Nat.eqb i1 (length done) && Nat.eqb i2 (length done)); [|discriminate]. cbn [andb] in Hi.
-      destruct (N.eqb_spec t t0) as [<-|]; [|discriminate].
+      destruct (N.eqb_spec t t0) as [<-|]; [|discriminate]. cbn [andb] in Hi.
+      destruct (field_is_ptr gs (length done) t); [|discriminate].
       inversion Hi; subst.
       exists [EFillNew (length done) t; ECall (length done) GNone propagate]. split; [reflexivity|].
       cbn [run_estmts]. rewrite efillnew_refines. cbn [render_kind].
